@@ -363,18 +363,18 @@ PROP_ASSUMPTIONS["C09"] = [
 # C14
 # ---------------------------------------------------------------------------
 GEN = {"s01": "positions 0 and 1 swapped", "s12": "positions 1 and 2 swapped"}
-for nm, strat, tier, to in [("lex", "Lexicographic", "quick", 900), ("morton", "Morton", "quick", 2400), ("hilbert", "Hilbert", "thorough", 6000)]:
+for nm, strat, tier, to in [("lex", "Lexicographic", "quick", 900), ("morton", "Morton", "thorough", 6000), ("hilbert", "Hilbert", "thorough", 9000)]:
     for g, gtxt in GEN.items():
         h("C14", "c14", f"c14_order_independent_{nm}_n3_{g}", tier, to,
           f"{strat} ordering, n=3 vertices, D=2, ALL integer coordinates in [-2,2], input list with {gtxt} (the two "
           "transpositions generate S3, so invariance under both = invariance under every permutation): identical ordered "
           "coordinate sequence; with pairwise distinct coordinates identical vertex (UUID) sequence",
           ORD + [f"core::delaunay_triangulation::order_vertices_{nm if nm != 'lex' else 'lexicographic'}"])
-        h("C14", "c14", f"c14_order_independent_{nm}_cluster_n3_{g}", tier if not (nm == "morton" and g == "s01") else "thorough", to,
+        h("C14", "c14", f"c14_order_independent_{nm}_cluster_n3_{g}", tier, to,
           f"{strat} ordering on a CLUSTER: frame vertex (-2,2) plus two vertices with coordinates in {{0,1,2,3}}*2^-40 (same "
           f"Hilbert/Morton cell), D=2, input list with {gtxt}: identical ordered sequence (coordinates; vertices when the two "
           "cluster points differ)", ORD)
-h("C14", "c14", "c14_order_deterministic_n3", "quick", 900,
+h("C14", "c14", "c14_order_deterministic_n3", "quick", 2400,
   "Input/Lexicographic ordering applied twice to the same n=3 input (D=2, coordinates in [-2,2]): identical sequences", ORD)
 PROP_ASSUMPTIONS["C14"] = [
     "kernel level only: equality of the BUILT triangulations, uniqueness of the Delaunay triangulation, hash-map iteration "
